@@ -544,6 +544,36 @@ let do_trace (rest : string) : string =
      | Some z -> replay_all z (List.mapi (fun i e -> (i, e)) evs))
   | _ -> failwith "bad TRACE"
 
+(* C13: an observed global sequence of lock events must be a run of Model/Lock.v *)
+let do_lock (rest : string) : string =
+  let evs = toks rest in
+  let st = ref l_init in
+  let res = ref "ok" in
+  (try
+     List.iteri (fun i t ->
+         let kind = t.[0] in
+         let num s = nat_of_int (int_of_string s) in
+         let body = String.sub t 1 (String.length t - 1) in
+         let (c, expect) =
+           if kind = 't' then (num (String.sub body 0 (String.length body - 1)), Some (body.[String.length body - 1] = '+'))
+           else (num body, None) in
+         let ev = (match kind with
+             | 'o' -> LOpenLockFile c | 't' -> LTryLock c | 'x' -> LTouch c | 'd' -> LDrop c
+             | _ -> failwith "bad lock event") in
+         match lstep !st ev with
+         | None -> res := Printf.sprintf "rejected at %d: %s is not enabled in the model" i t; raise Exit
+         | Some s' ->
+           (match expect with
+            | Some got ->
+              let owner = (match s'.l_cs c with COwner -> true | _ -> false) in
+              if owner <> got then begin
+                res := Printf.sprintf "rejected at %d: %s — the model says the lock attempt %s" i t (if owner then "succeeds" else "fails");
+                raise Exit end
+            | None -> ());
+           st := s') evs
+   with Exit -> ());
+  !res
+
 let do_enc (rest : string) : string =
   let r = p_record (toks rest) in
   let b = enc_record r in
@@ -574,6 +604,7 @@ let () =
              | "ENC" -> do_enc rest
              | "DEC" -> do_dec rest
              | "TRACE" -> do_trace rest
+             | "LOCK" -> do_lock rest
              | "NAME" -> hex_of_bytes (chunk_file_name (n_of_string (String.trim rest)))
              | "PARSE" -> (match parse_chunk_file_name (bytes_of_hex (String.trim rest)) with
                            | Some n -> "some " ^ string_of_n n | None -> "none")
